@@ -101,7 +101,9 @@ class PersistentRemoteWorker(PersistentWorker, RemoteWorker):
                     logger.debug('New message signalling end of partial results')
                     self._results_pipe.child_end.put(result)
                     last_partial_result_signalled = True
-                    assert remote_counter == counter, f'{remote_counter} {counter}'
+                    # the child increments its counter before sending a result, so if it was stopped between
+                    # these two steps its final counter is ahead of the number of results received
+                    assert remote_counter in (counter, counter + 1), f'{remote_counter} {counter}'
                     assert value is None
                     assert wid == self.id
                 else:
